@@ -824,6 +824,31 @@ def sibling_subdir_header(p: Project) -> None:
     p.expect = [('sibapp', 'all'), ('sibapp', 'meson-test-prereq')]
 
 
+@entry('partial-dep-nested-sources', ['gcc'], [{'layout': 'mirror', 'unity': 'off'}], {'layout': ['mirror'], 'unity': UNITY},
+       'InternalDependency.get_partial_dependency over nested declare_dependency objects (sources of inner dependencies), as_link_whole / link_whole through declare_dependency',
+       'generated header reaching a target only through outer.partial_dependency(sources: true) of a nested declare_dependency; link_whole given through a declare_dependency')
+def partial_dep_nested_sources(p: Project) -> None:
+    L = head(p, ['c'])
+    L.append(f"pgen = custom_target('pgen', input: 'pgen.h.in', output: 'pgen.h', {COPY})")
+    L.append("inner = declare_dependency(sources: pgen)")
+    L.append("outer = declare_dependency(dependencies: inner, compile_args: ['-DOUTER=1'])")
+    L.append("part = outer.partial_dependency(sources: true, compile_args: true, includes: true)")
+    L.append("keeper = executable('pkeeper', 'pmain.c', dependencies: outer)")        # keeps pgen.h in `all` through the full dependency
+    L.append("papp = executable('papp', 'pmain.c', dependencies: part)")
+    L.append("plug = static_library('pplug', 'pplug.c')")
+    L.append("plug_dep = declare_dependency(link_whole: plug)")
+    L.append("phost = shared_library('phost', 'phost.c', dependencies: plug_dep)")
+    L.append("pexe = executable('pwhole', 'pwhole.c', link_whole: plug)")
+    L.append("test('papp', papp)")
+    p.files['pgen.h.in'] = '#pragma once\n#define PGEN_VALUE 5\n'
+    p.files['pmain.c'] = '#include "pgen.h"\n#ifndef OUTER\n#error OUTER not defined\n#endif\nint main(void) { return PGEN_VALUE - 5; }\n'
+    p.files['pplug.c'] = 'int pplug(void) { return 0; }\n'
+    p.files['phost.c'] = 'int pplug(void);\nint phost(void) { return pplug(); }\n'
+    p.files['pwhole.c'] = 'int pplug(void);\nint main(void) { return pplug(); }\n'
+    p.files['meson.build'] = '\n'.join(L) + '\n'
+    p.expect = [('papp', 'all'), ('pkeeper', 'all'), ('libphost.so', 'all'), ('pwhole', 'all'), ('papp', 'meson-test-prereq')]
+
+
 # ---------------------------------------------------------------------------
 # Minimal projects for defects of the unchanged tree that the entries above ran into.  Each is its own entry (own
 # signature ...@feature/<name>) so that it can be listed as a known finding without hiding anything else; the entries
